@@ -143,4 +143,44 @@ example : UpdateOK P0 w0 ["cache"] T0 3 1700000000 [1] 7 where
 example : isCacheName "autoconf-1700000000.json" = true := by decide
 example : isCacheName ".tmp-123456" = false ∧ isCacheName etagFile = false ∧ isCacheName lastRefreshFile = false := by decide
 
+/-! ### the code before the fix violates the property (concrete witnesses, evaluated by the kernel) -/
+
+/-- the unrepaired code: `os.WriteFile` on the final name, only the newest file is tried -/
+def Pold : Params :=
+  { parse := fun b => if b = [1] then some 1 else if b = [2, 2] then some 2 else none,
+    atomic := false, fallbackOlder := false }
+
+/-- a cache directory holding one valid cached version, written at second 1000000001 -/
+def wOld : World :=
+  AMap.insert (AMap.insert FS.empty ["cache"] (dirNode 0o755))
+    ["cache", "autoconf-1000000001.json"] (fileNode 0o600 [1])
+
+/-- **Counterexample (unrepaired code).** A valid cached version exists (`GetCached` = version 1); an update
+one second later that stops right after `os.WriteFile` has created the new file leaves a world in which
+`GetCached` falls back — `c45_never_fallback` fails for `atomic = false`, `fallbackOlder = false`. -/
+theorem c45_unfixed_counterexample :
+    getCachedConfig Pold wOld ["cache"] = some 1 ∧
+    ∃ w' ∈ (update Pold wOld ["cache"] T0 3 1000000002 [2, 2] [] [] [48]).visited,
+      getCachedConfig Pold w' ["cache"] = none := by
+  refine ⟨by decide, (update Pold wOld ["cache"] T0 3 1000000002 [2, 2] [] [] [48]).visited.head!, ?_, ?_⟩ <;> decide
+
+/-- **Counterexample (atomic write alone reverted).** Even with the fall-back to older files, the non-atomic
+write loses the cache when two updates fall into the same second: the only valid copy is truncated. -/
+theorem c45_nonatomic_same_second_counterexample :
+    ∃ w' ∈ (update { Pold with fallbackOlder := true } wOld ["cache"] T0 3 1000000001 [2, 2] [] [] [48]).visited,
+      getCachedConfig { Pold with fallbackOlder := true } w' ["cache"] = none := by
+  refine ⟨(update { Pold with fallbackOlder := true } wOld ["cache"] T0 3 1000000001 [2, 2] [] [] [48]).visited.head!, ?_, ?_⟩ <;> decide
+
+/-- the repaired code on the same two witnesses: no visited world falls back (instances of
+`c45_never_fallback`, re-checked here by evaluation) -/
+example : ((update { Pold with atomic := true, fallbackOlder := true } wOld ["cache"] T0 3 1000000002 [2, 2] [] [] [48]).visited.all
+    fun w' => (getCachedConfig { Pold with atomic := true, fallbackOlder := true } w' ["cache"]).isSome) = true := by decide
+example : ((update { Pold with atomic := true, fallbackOlder := true } wOld ["cache"] T0 3 1000000001 [2, 2] [] [] [48]).visited.all
+    fun w' => (getCachedConfig { Pold with atomic := true, fallbackOlder := true } w' ["cache"]).isSome) = true := by decide
+
+/-- `listCacheFiles` compares decimal timestamps as strings: across a change of the digit count the order
+is wrong (999999999 s = 2001-09-09, next change in 2286) — the reason for the `clock` hypothesis being
+stated on names. -/
+example : cfgName 1000000000 ≤ cfgName 999999999 := by decide
+
 end C45
